@@ -142,7 +142,11 @@ class LMNN(MahalanobisMixin, TransformerMixin):
                     ' version 0.6.3 and will be removed in 0.7.0'
                     '', FutureWarning)
       n_neighbors = k
-    self.k = 'deprecated'  # To avoid no_attribute error
+      k = 'deprecated'
+    # the placeholder is stored as received: clone requires the stored
+    # parameter to be the object that was passed (an unpickled estimator
+    # carries an equal but distinct string)
+    self.k = k  # To avoid no_attribute error
     self.n_neighbors = n_neighbors
     self.min_iter = min_iter
     self.max_iter = max_iter
